@@ -336,7 +336,7 @@ pub fn decode_cc(e: &Entry) -> Option<ConfChangeV2> {
 }
 
 impl World {
-    pub fn new(scen: &'static Scenario) -> World {
+    pub fn new(scen: &'static Scenario, ctx: &mut Ctx) -> World {
         let mut cs = ConfState::default();
         cs.set_voters(scen.voters.clone());
         cs.set_learners(scen.learners.clone());
@@ -371,13 +371,11 @@ impl World {
         w.ghost.cl_fold.push(Some(0));
         w.ghost.commit_term_of.push(0);
         w.ghost.conf_at.insert(0, cs);
-        let mut ctx = Ctx::new();
         for i in 0..scen.nodes.len() {
             if scen.nodes[i].boot {
-                w.start_node(i, &mut ctx);
+                w.start_node(i, ctx);
             }
         }
-        assert!(ctx.viol.is_empty(), "violations while booting: {:?}", ctx.viol);
         w
     }
 
@@ -428,7 +426,24 @@ impl World {
                 .filter(|c| c.group_id > 0)
                 .map(|c| (c.id, c.group_id))
                 .collect();
+            // highest id first: ids the tracker does not know yet (a node that joins later)
+            // come before the members; the call must still assign every known member
+            let ids: Vec<(u64, u64)> = ids.into_iter().rev().collect();
             rn.raft.assign_commit_groups(&ids);
+            for (pid, g) in &ids {
+                if let Some(pr) = rn.raft.prs().get(*pid) {
+                    if pr.commit_group_id != *g {
+                        ctx.v(
+                            "C11",
+                            "assign_commit_groups left a tracked member without its group",
+                            format!(
+                                "node {}: assign_commit_groups({:?}) left member {} with group {} instead of {}",
+                                i + 1, ids, pid, pr.commit_group_id, g
+                            ),
+                        );
+                    }
+                }
+            }
         }
         let mut last_hs = disk.hs.clone();
         if last_hs.commit < disk.snap_index {
